@@ -142,8 +142,10 @@ def _guard_matches(test, label, subjects):
                     return True, "strict"
             else:
                 # x > y / x >= y (true)  or  x < y / x <= y (false): lower bound by y
-                lower_true = isinstance(op, (ast.Gt, ast.GtE)) and not flip or isinstance(op, (ast.Lt, ast.LtE)) and flip
-                upper_op = isinstance(op, (ast.Lt, ast.LtE)) and not flip or isinstance(op, (ast.Gt, ast.GtE)) and flip
+                # strict lower bound only: x > y (true) or x <= y (false) give x > y >= 0;
+                # x >= y / not (x < y) still allow x == y == 0
+                lower_true = isinstance(op, ast.Gt) and not flip or isinstance(op, ast.Lt) and flip
+                upper_op = isinstance(op, ast.LtE) and not flip or isinstance(op, ast.GtE) and flip
                 if lower_true and truth or upper_op and not truth:
                     return True, "bound"
         return False, None
@@ -256,6 +258,11 @@ def r_div(A, ctx, scope, rule="R-DIV", where=None):
                     ctx.ob(rule, key, True, detail="numpy-level division (inf, no exception); "
                            "NaN propagation not decided")
                     continue
+            if any(isinstance(x, ast.Call) and any(k.arg == "axis" for k in x.keywords)
+                   for nm in names_in(D) for v in _defs(f.node, nm) for x in ast.walk(v)):
+                ctx.ob(rule, key, True, detail="array-valued denominator (numpy elementwise "
+                       "division: inf, no exception)")
+                continue
             if _mask_guard(f, D):
                 ctx.ob(rule, key, True, detail="guard: boolean mask `!= 0` selects the entries")
                 continue
@@ -288,8 +295,8 @@ def r_div(A, ctx, scope, rule="R-DIV", where=None):
                         if g:
                             guarded, kind = True, k
             if guarded and kind == "bound":
-                ctx.assume("lower-bound guards (`norm_x < u -> return`) make the "
-                           "denominator non-zero only for a positive threshold")
+                ctx.assume("strict lower-bound guards (`norm_x <= u -> return`) assume a "
+                           "non-negative threshold u")
             ctx.ob(rule, key, guarded, detail=f"guard kind: {kind}" if guarded else "",
                    what=f"division by `{norm_src(D)[:50]}` (data-derived: zero for an "
                         "all-zero column / group / input / weight) without a dominating "
